@@ -23,7 +23,9 @@ def hostile_token(rng, domain='any'):
     """printable non-blank text; domain restricts to what a format can represent at all (DESIGN 9.1)"""
     for _ in range(100):
         r = rng.random()
-        if r < 0.06:
+        if r < 0.008:
+            w = rng.choice(('-', '.', ',', '(', ')', '!', '()', '-.', 'a-')) * rng.randint(33, 70)     # long runs of one mark
+        elif r < 0.06:
             w = rng.choice(SPECIAL)
         elif r < 0.35:
             w = rng.choice(PLAIN)
@@ -344,6 +346,33 @@ def make_batch(rng, lang, domain='any', max_sentences=4, max_nbest=3, licensed_s
             rng.shuffle(scores)          # result lists built by a caller need not be sorted
         batch.append([ScoredTree(t, sc) for t, sc in zip(trees, scores)])
     return batch
+
+
+def chain_tree(rng, lang, token_fn, n, shape):
+    """an n-word derivation that is one chain (right- or left-branching): the deepest tree a sentence of n words can have"""
+    from depccg.tree import Tree
+    ix = index(lang)
+    lab = sorted(l for l in ix.labels if l[1] not in ('<un>',) and not l[0].startswith('AD'))[0]
+    cats = ix.inventory
+    t = Tree.make_terminal(token_fn(rng), rng.choice(cats))
+    for _ in range(n - 1):
+        leaf = Tree.make_terminal(token_fn(rng), rng.choice(cats))
+        kids = (leaf, t) if shape == 'right' else (t, leaf)
+        t = Tree.make_binary(rng.choice(cats), kids[0], kids[1], lab[0], lab[1], lang == 'en')
+    return t
+
+
+class default_recursion_limit:
+    """run a block under the interpreter's default recursion limit (the shards raise theirs for their own generators)"""
+    def __enter__(self):
+        import sys
+        self.old = sys.getrecursionlimit()
+        sys.setrecursionlimit(1000)
+
+    def __exit__(self, *a):
+        import sys
+        sys.setrecursionlimit(self.old)
+        return False
 
 
 def tree_dump(tree):
